@@ -10,6 +10,16 @@ E3 = 'TLC model checking of a TLA+ model generated from the documented tables, w
 
 # pid -> (engine, technique, level text, note, design_ref)
 CHECKS = {
+    'C13': ('E1', E1,
+            'Operand pairs on integer-nm grids (identical, nested, partially overlapping, disjoint, non-uniform; both orders) x 5 '
+            'operators x sampling {min,left,right,25} x method {linear,quadratic,cubic} x fill {0,1} x wavelength unit of each operand '
+            '{nm,um,m,angstrom}^2, plus density-valued operands: the result grid must be the uniform grid on the union at the '
+            'requested sampling and every value must equal the operator applied to a list-of-pairs model (piecewise-linear inside '
+            'an operand range, fill outside; splines judged at operand samples); the result is new, both operands are physically '
+            'unchanged, add/mul commute, and scalar/list/tuple/ndarray operands act element-wise on the unchanged grid.',
+            'Trusted: numpy/scipy interp1d; grid points that coincide with a range end only up to unit-conversion rounding may be '
+            'classified either way; numpy.linspace is guarded against > 10^6-point grids (deterministic seam).',
+            'DESIGN.md section 4 C13'),
     'C11': ('E1', E1,
             'Index map j = 1..120/1000 against an independent generator of the Noll order (bijection onto the admissible (n,m)); '
             'mode values for j <= 66/120 on a rational node grid against radial polynomials evaluated in exact Fractions times the '
